@@ -5,6 +5,7 @@ from pvrules.mir import is_call, peel, show, strip_generics, subterms
 from pvrules.rules import elem_of, ok_payloads
 from . import hash_common as hc
 from . import unordered as un
+from . import controls
 
 LEVEL = "other"
 EXPLANATION = ("Static MIR rules over Desc::new and Describer for Opts: a non-UTF-8 separator follows every hashed component (R1); no hasher is fed from an "
@@ -248,6 +249,7 @@ def run(ctx):
         ctx.run_rule("R2", rule_R2, f, b)
         ctx.run_rule("R3", rule_R3, f, b)
     ctx.run_rule("R4", rule_R4, f)
+    ctx.run_rule("R2", lambda c: controls.control_unordered(c, "R2"))
     if ctx.tier == "thorough":
         g = ctx.facts("plain")
         gb = g.body(D)
